@@ -1041,7 +1041,7 @@ func c03Dropped(c *Ctx, p *Prog) {
 	}
 	site := p.pos(fn.Pos())
 	mk := func() *e6Interp {
-		return &e6Interp{fn: fn, PureCall: func(f *types.Func) bool { return true }, OuterName: func(v ssa.Value) string { return sibOuter(v, 0) }, MaxAtoms: 20}
+		return &e6Interp{fn: fn, PureCall: func(f *types.Func) bool { return true }, OuterName: func(v ssa.Value) string { return sibOuter(v, 0) }, MaxAtoms: 20, HoistedLoads: true}
 	}
 	outs, why := regionOutcomes(fn, mk, 20000)
 	if why != "" {
